@@ -417,6 +417,11 @@ def eocSwap (x : Channel) : Channel :=
 def endOfCaption (ch : Channel) : Channel :=
   eocSwap (wordBreak { ch with mode := .popOn } true)
 
+/-- the channel Erase Displayed / Non-Displayed Memory act on: with the repair of finding F73 (`edmEnmOnCaption`, generated:
+    `ch = &cc->channel[chan & 3];` first in `case 12:` and `case 14:`) the CAPTION channel of the data channel also inside a
+    Text Mode transmission (EIA-608-B 7.7 / Annex B.7), otherwise the addressed channel `chan` (text flag of `curr_chan`) -/
+def edmChan (chan : Nat) : Nat := if edmEnmOnCaption then chan &&& 3 else chan
+
 /-- `caption_command(vbi, cc, c1, c2, field2)`; `c1` in 0x10..0x1F, `c2` in 0..0x7F -/
 def captionCommand (s : St) (c1 c2 : Nat) (field2 : Bool) : St :=
   let chan := (s.curr field2 &&& 4) + (if field2 then 2 else 0) + ((c1 >>> 3) &&& 1)
@@ -438,8 +443,8 @@ def captionCommand (s : St) (c1 c2 : Nat) (field2 : Bool) : St :=
     | 1 => s.modCh chan (fun ch => backspace ch chan)
     | 13 => s.modCh chan (fun ch => carriageReturn ch chan)
     | 4 => s.modCh chan (fun ch => deleteToEnd ch chan)
-    | 12 => s.modCh chan eraseDisplayed
-    | 14 => s.modCh chan eraseNonDisplayed
+    | 12 => s.modCh (edmChan chan) eraseDisplayed
+    | 14 => s.modCh (edmChan chan) eraseNonDisplayed
     | _ => s
   | 7 => s.modCh chan (fun ch => case7 ch chan c2)
   | _ => s
